@@ -92,6 +92,9 @@ KDATA = [
     CH(note('2', 'GG', '--'), note('4', 'D', '', [';'])),
     note('4', 'AA', '#', ['/', 'L'], src='4AA#/L'),
     CH(note('4', 'D', '', ['[']), note('4', 'D'), note('4', 'A')),
+    # signifiers that combine with a neighbour in the grammar (one decoration each): conservation only, not canonicity
+    note('4', 'c', '', ['L>'], src='4cL>'), note('4', 'd', '', ['&('], src='&(4d'), note('8', 'e', '', ['xx'], src='8exx'), note('4', 'f', '', ['??'], src='4f??'),
+    rest('4', ['yy']),
     NULL_D,
 ]
 # duration-less notes and rests for **root columns (kernpy parses **root with the kern grammar)
